@@ -49,7 +49,7 @@ class STPCHKRQ(Aggregate):
     requiredMutexes = [["chkrange", "chkdesc"]]
 
 
-class STPCHKNUM(Aggregate, Origcurrency):
+class STPCHKNUM(Origcurrency, Aggregate):
     """OFX section 11.6.1.2.1"""
 
     checknum = String(12, required=True)
